@@ -21,6 +21,9 @@ import (
 	"github.com/pandatix/go-cvss/verifsim/rt"
 )
 
+// persistAlways: re-read the persistent vault after every run (replay mode).
+var persistAlways bool
+
 func fatal(format string, args ...any) {
 	fmt.Fprintf(os.Stderr, "worker: "+format+"\n", args...)
 	os.Exit(2)
@@ -57,6 +60,10 @@ func evalRun(p *Plan, run int, trace, cover bool) (*runResult, []Violation) {
 	viol := res.Viol
 	if p.Prop == "C14" {
 		viol = append(viol, checkO1(res, run)...)
+		persistAdd(res, run)
+		if run%64 == 63 || persistAlways {
+			viol = append(viol, persistCheck(run)...)
+		}
 	}
 	if p.Prop == "C07" {
 		viol = append(viol, checkEq(res, run)...)
@@ -262,6 +269,7 @@ type workerStats struct {
 	PointsHit   []int          `json:"points_hit,omitempty"`     // ids of points executed under the scheduler
 	PreemptSites []int         `json:"preempt_sites,omitempty"`  // ids of points at which a preemption fired
 	SetPairs    int            `json:"set_pairs"`
+	SetPairsTotal int          `json:"set_pairs_total"` // size of the (metric set, value, neighbour metric, neighbour value) space per the specification tables
 	RunHash     string         `json:"run_hash"` // hash over all run hashes: determinism self-test
 	Samples     []*Plan        `json:"samples,omitempty"`
 	Violations  int            `json:"violations"`
@@ -421,6 +429,16 @@ func cmdRun(args []string) {
 	}
 	sort.Ints(st.PreemptSites)
 	st.SetPairs = len(pairs)
+	for _, ver := range versions {
+		sp := specs[ver]
+		sum := 0
+		for _, m := range sp.Metrics {
+			sum += len(m.Values)
+		}
+		for _, m := range sp.Metrics {
+			st.SetPairsTotal += len(m.Values) * (sum - len(m.Values))
+		}
+	}
 	if *outDir != "" {
 		st.DistinctFile = fmt.Sprintf("%s/distinct-%d.bin", *outDir, *wk)
 		writeSet(st.DistinctFile, distinct)
@@ -516,6 +534,7 @@ func cmdExec(args []string) {
 	trace := fs.Bool("trace", false, "")
 	fs.Parse(args)
 	pf := readPlanFile(*in)
+	persistAlways = true
 	rep := execReport{Type: "exec", Race: rt.RaceBuild, Violations: []Violation{}}
 	for i, p := range pf.Plans {
 		res, viol := evalRun(p, i, *trace, false)
